@@ -147,7 +147,7 @@ class CppBase(CBase):
             cfg = os.path.join(self.dir, "config.yaml")
             import yaml
             with open(cfg, "w") as f:
-                yaml.safe_dump({"nunavut.lang.cpp": config}, f)
+                yaml.safe_dump({"nunavut.lang.cpp": {k: v for k, v in config.items() if not k.startswith("_")}}, f)
             fl += ["--configuration", cfg]
         ok, err = gen_cli(dsdl_dir, roots, out, "cpp", fl, self.dir)
         if not ok:
